@@ -957,8 +957,31 @@ func (in *inliner) emitSite0(s *inlSite) (rope, bool) {
 			return false
 		}
 		if len(fields) > 0 {
-			if !callsQuiet || inLit[po] {
+			if inLit[po] {
 				return false
+			}
+			if !callsQuiet {
+				// the callee could only re-point a field of the root variable through another
+				// reference to it: none of the other arguments may mention the root
+				others := append([]ast.Expr{}, s.call.Args...)
+				if sel, ok := ast.Unparen(s.call.Fun).(*ast.SelectorExpr); ok && s.callee != nil && s.callee.Decl.Recv != nil {
+					others = append(others, sel.X)
+				}
+				for _, a := range others {
+					if a == arg {
+						continue
+					}
+					mentions := false
+					ast.Inspect(a, func(m ast.Node) bool {
+						if mid, ok := m.(*ast.Ident); ok && info.Uses[mid] == ao {
+							mentions = true
+						}
+						return !mentions
+					})
+					if mentions {
+						return false
+					}
+				}
 			}
 			for _, f := range fields {
 				if storedFields[f] {
